@@ -444,8 +444,8 @@ def weave(op_file, cfg):
         meta["sites"] += nsites
         meta["trace_events"] += h["trace_events"]
         ind = mm.group(1)
-        return f"{ind}/* ---- extracted from /repo/src/{op}.rs, closure `{lab}` ({cfg}) ---- */\n" + "\n".join(ind + l for l in body.split("\n")) + f"\n{ind}/* ---- end of extracted body ---- */"
-    text = re.sub(r'^([ \t]*)BODY!\("([^"]+)"\);?', hole, text, flags=re.M)
+        return f"{ind}/* ---- extracted from /repo/src/{op}.rs, closure `{lab}` ({cfg}) ---- */\n" + "\n".join(ind + l for l in body.split("\n")) + (f"\n{ind}/* ---- end of extracted body ---- */" if mm.group(3) else f"\n{ind}/* ---- end of extracted body (its value is the result) ---- */")
+    text = re.sub(r'^([ \t]*)BODY!\("([^"]+)"\)(;?)', hole, text, flags=re.M)
     missing = set(handlers) - used - skips
     if missing:
         raise WeaveError(f"closures without a contract: {sorted(missing)} (closure structure changed)")
